@@ -33,6 +33,7 @@ type Fail struct {
 
 type Run struct {
 	K, NMbox int
+	Bulk     bool
 	Hist     []Op
 	Obs      []StepObs
 	Views    []ViewObs
@@ -119,16 +120,17 @@ type Config struct {
 	// Disciplined: a session drains the updates queued for it before each of its own state-changing commands
 	// (then no own command can overtake an earlier foreign update; the strict oracles apply).
 	Disciplined bool
+	Bulk        bool // IDLE with a bulk time: responses are buffered and sent merged when the IDLE ends
 }
 
 // Generate-and-run: the next op depends on what the sessions have been told so far.
 func RunHistory(rng *common.Rng, cfg Config) (*Run, error) {
-	w, err := Start(cfg.K, cfg.NMbox)
+	w, err := Start(cfg.K, cfg.NMbox, cfg.Bulk)
 	if err != nil {
 		return nil, err
 	}
 	defer w.Stop()
-	run := &Run{K: cfg.K, NMbox: cfg.NMbox, Stats: map[string]int{}}
+	run := &Run{K: cfg.K, NMbox: cfg.NMbox, Bulk: cfg.Bulk, Stats: map[string]int{}}
 	mir := make([]*Mirror, cfg.K)
 	pendingExp := make([]int, cfg.K)    // removals known (from the hook) to be held back in session s
 	mustAnnounce := make([]bool, cfg.K) // [EXPUNGEISSUED] was reported and no permitting flush happened yet
@@ -143,7 +145,7 @@ func RunHistory(rng *common.Rng, cfg Config) (*Run, error) {
 
 	mutating := func(o Op) bool {
 		switch o.Cmd {
-		case "append", "store", "expunge", "copy", "move", "fetchbody":
+		case "append", "store", "expunge", "copy", "move", "fetchbody", "fetchflagsbody":
 			return o.Kind == "cmd"
 		}
 		return false
@@ -210,7 +212,7 @@ func RunHistory(rng *common.Rng, cfg Config) (*Run, error) {
 			}
 		}
 		// ---- C05 oracle ----
-		restricted := o.Cmd == "store" || o.Cmd == "fetchbody" || o.Cmd == "probe" || o.Cmd == "search"
+		restricted := o.Cmd == "store" || o.Cmd == "fetchbody" || o.Cmd == "fetchflagsbody" || o.Cmd == "probe" || o.Cmd == "search"
 		permitting := o.Cmd == "noop" || o.Cmd == "check" || o.Cmd == "expunge" || o.Cmd == "move" || o.Cmd == "idle" ||
 			(o.Cmd == "append" && m.Selected && m.Mb == o.Mb)
 		if restricted {
@@ -376,7 +378,7 @@ func RunHistory(rng *common.Rng, cfg Config) (*Run, error) {
 			continue
 		}
 		if !m.Selected {
-			if _, err := exec(Op{Kind: "cmd", S: s, Cmd: "select", Mb: 0}); err != nil {
+			if _, err := exec(Op{Kind: "cmd", S: s, Cmd: "select", Mb: rng.Pick(cfg.NMbox) * rng.Pick(2)}); err != nil {
 				return run, err
 			}
 			continue
@@ -437,8 +439,8 @@ func RunHistory(rng *common.Rng, cfg Config) (*Run, error) {
 		var o Op
 		switch {
 		case x < 14:
-			mb := 0
-			if rng.Chance(0.15) {
+			mb := m.Mb
+			if rng.Chance(0.3) {
 				mb = rng.Pick(cfg.NMbox)
 			}
 			o = Op{Kind: "cmd", S: s, Cmd: "append", Mb: mb, Flags: nil}
@@ -467,7 +469,7 @@ func RunHistory(rng *common.Rng, cfg Config) (*Run, error) {
 			if n == 0 {
 				continue
 			}
-			o = Op{Kind: "cmd", S: s, Cmd: "fetchbody", Ps: pickPs(n)}
+			o = Op{Kind: "cmd", S: s, Cmd: []string{"fetchbody", "fetchflagsbody"}[rng.Pick(2)], Ps: pickPs(n)}
 		case x < 56:
 			o = Op{Kind: "cmd", S: s, Cmd: "probe"}
 		case x < 59:
@@ -478,7 +480,7 @@ func RunHistory(rng *common.Rng, cfg Config) (*Run, error) {
 			o = Op{Kind: "cmd", S: s, Cmd: "check"}
 		case x < 69:
 			o = Op{Kind: "cmd", S: s, Cmd: "idle"}
-		case x < 71:
+		case x < 73:
 			o = Op{Kind: "cmd", S: s, Cmd: "select", Mb: rng.Pick(cfg.NMbox)}
 		case x < 90:
 			if verifhook.Held(w.StateID[s]) == 0 {
@@ -670,6 +672,6 @@ func (r *Run) CoqCase(id int) string {
 		}
 		views[i] = fmt.Sprintf("(%d%%nat, %d, [%s])", v.AfterStep, v.Mb, strings.Join(rows, "; "))
 	}
-	return fmt.Sprintf("mkCase %d %d %d\n   [%s]\n   [%s]\n   [%s]", id, r.K, r.NMbox,
+	return fmt.Sprintf("mkCase %d %d %d %s\n   [%s]\n   [%s]\n   [%s]", id, r.K, r.NMbox, common.CoqBool(r.Bulk),
 		strings.Join(ops, "; "), strings.Join(obs, "; "), strings.Join(views, "; "))
 }
